@@ -1,7 +1,8 @@
 #!/bin/bash
 # confirm_seed.sh <src-dir with patch.diff demo_test.go meta.json> <pkgdir for demo> <test regex> [extra go test flags]
 # Confirms in a scratch worktree: demo passes on HEAD, patch applies, touched packages build and their
-# existing tests pass with the patch, demo fails with the patch.  Prints a one-line JSON verdict.
+# existing tests pass with the patch (TestCheckReserveWithDomain needs a network and fails on the clean tree too: skipped),
+# demo fails with the patch.  Prints a one-line JSON verdict.
 SRC=$(realpath "$1"); PKG=$2; RX=$3; shift 3; EXTRA="$@"
 export GOFLAGS=-mod=mod GOPROXY=off GOSUMDB=off GOTOOLCHAIN=local CGO_LDFLAGS="-L/verif/build -lwasmstub"
 WT=$(mktemp -d /tmp/confirm-seed-XXXXXX); rmdir "$WT"
@@ -15,7 +16,7 @@ rm "$PKG/zz_seed_demo_test.go"
 git apply "$SRC/patch.diff" || { echo '{"applies": false}'; exit 1; }
 pkgs=$(git diff --name-only | xargs -n1 dirname | sort -u | sed 's|^|./|; s|$|/|' | tr '\n' ' ')
 go build $pkgs > "$WT/.build.log" 2>&1; build_rc=$?
-go test -count=1 $pkgs > "$WT/.tests.log" 2>&1; tests_rc=$?
+go test -count=1 -skip "^TestCheckReserveWithDomain$" $pkgs > "$WT/.tests.log" 2>&1; tests_rc=$?
 cp "$DEMO" "$PKG/zz_seed_demo_test.go"
 go test $EXTRA -count=1 -run "$RX" "./$PKG/" > "$WT/.patched.log" 2>&1; patched_rc=$?
 echo "{\"applies\": true, \"demo_on_clean_head_rc\": $clean_rc, \"build_with_patch_rc\": $build_rc, \"existing_tests_of_touched_packages_rc\": $tests_rc, \"demo_with_patch_rc\": $patched_rc, \"touched_packages\": \"$pkgs\"}"
